@@ -899,12 +899,14 @@ class Arm(Robot):
         new_home = fsr.localToGlobal(self._end_effector_home, old_to_new)
         self._end_effector_home = new_home
         self._helper_determine_eef_to_last_joint()
+        self._helper_refresh_body_screws()
 
     #Converted to Python - Joshua
     def restoreOriginalEE(self) -> None:
         """Restore the original End effector configuration of the arm."""
         self._end_effector_home = self._original_end_effector_home
         self._helper_determine_eef_to_last_joint()
+        self._helper_refresh_body_screws()
 
     def getScrewList(self) -> 'np.ndarray[float]':
         """
@@ -1445,6 +1447,11 @@ class Arm(Robot):
     """
     Helpers to avoid code duplication
     """
+    def _helper_refresh_body_screws(self):
+        """Recompute the body frame screw list from the current end effector home."""
+        self.screw_list_body = (
+            fmr.Adjoint(self._end_effector_home.inv().gTM()) @ self.screw_list)
+
     def _helper_determine_eef_to_last_joint(self):
         """
         Determine if an eef to last joint transform is required.
